@@ -159,6 +159,15 @@ def removeIf (l : List α) (p : α → Bool) : Except Err (List α × Nat) :=
 
 /-! ### static_set -/
 
+/-- the test `it != end() && !comp(key, *it)` that follows a `lower_bound` (no read when `it == end()`);
+    `gt x = comp(key, x)` -/
+def equivAt (gt : α → Bool) (l : List α) (p : Nat) : Except Err Bool :=
+  if p = l.length then .ok false
+  else
+    match rd l p with
+    | .error e => .error e
+    | .ok x => .ok (!gt x)
+
 /-- result of `insert`/`emplace`: the `(iterator, bool)` pair; `full` is the failure report
     `(nullptr,false)` of `static_set` / `(end(),false)` of `flat_set` for a new key in a full set -/
 inductive InsRes where
@@ -172,7 +181,7 @@ inductive InsRes where
     `if (full()) return {nullptr,false}`; `push_back(value)`; `rotate(p, end-1, end)`; `return {p,true}` -/
 def ssInsert (lt : α → α → Bool) (cap : Nat) (l : List α) (v : α) : Except Err (List α × InsRes) := do
   let p ← lowerBound lt l v
-  let dup ← (if p ≠ l.length then do let x ← rd l p; pure (!lt v x) else pure false)
+  let dup ← equivAt (fun x => lt v x) l p
   if dup then .ok (l, .exists_ p)
   else if l.length = cap then .ok (l, .full)
   else
@@ -199,7 +208,7 @@ def ssEraseRange (l : List α) (first last : Nat) : Except Err (List α × Nat) 
     `if (pos != end && !cmp(key,*pos)) { erase(pos); return 1; } return 0;` -/
 def ssEraseKey (lt : α → α → Bool) (l : List α) (k : α) : Except Err (List α × Nat) := do
   let p ← lowerBound lt l k
-  let hit ← (if p ≠ l.length then do let x ← rd l p; pure (!lt k x) else pure false)
+  let hit ← equivAt (fun x => lt k x) l p
   if hit then
     let (l', _) ← ssEraseAt l p
     .ok (l', 1)
@@ -215,10 +224,8 @@ def ssFind [DecidableEq α] (l : List α) (k : α) : Except Err Nat :=
     another type than the elements) -/
 def findLB (ltEK : α → Bool) (ltKE : α → Bool) (l : List α) : Except Err Nat := do
   let p ← boundLoop l ltEK 0 l.length
-  if p = l.length then .ok l.length
-  else
-    let x ← rd l p
-    if ltKE x then .ok l.length else .ok p
+  let hit ← equivAt ltKE l p
+  if hit then .ok p else .ok l.length
 
 def ssContains [DecidableEq α] (l : List α) (k : α) : Except Err Bool := do
   .ok ((← ssFind l k) != l.length)
@@ -230,8 +237,8 @@ def ssContains [DecidableEq α] (l : List α) (k : α) : Except Err Bool := do
        it = container.emplace(it, key); return {it,true}; }  return {it,false};` -/
 def fsEmplace (lt : α → α → Bool) (cap : Nat) (l : List α) (v : α) : Except Err (List α × InsRes) := do
   let p ← lowerBound lt l v
-  let fresh ← (if p = l.length then pure true else do let x ← rd l p; pure (lt v x))
-  if fresh then
+  let hit ← equivAt (fun x => lt v x) l p
+  if !hit then
     if l.length = cap then .ok (l, .full)
     else
       let (l', it) ← svEmplace cap l p v
@@ -327,8 +334,8 @@ def miniEmplace (cap : Nat) (l : List α) (pos : Nat) (x : α) : Except Err (Lis
 /-- `flat_set::emplace` over the inplace-vector-like container -/
 def fiEmplace (lt : α → α → Bool) (cap : Nat) (l : List α) (v : α) : Except Err (List α × InsRes) := do
   let p ← lowerBound lt l v
-  let fresh ← (if p = l.length then pure true else do let x ← rd l p; pure (lt v x))
-  if fresh then
+  let hit ← equivAt (fun x => lt v x) l p
+  if !hit then
     if l.length = cap then .ok (l, .full)
     else
       let (l', it) ← miniEmplace cap l p v
